@@ -1,6 +1,27 @@
 /-
   Property C04 — property theorems only (helper lemmas live next to the model).
-  Stub: nothing claimed yet.
 -/
+import Babylon.CVec.Model
+
 namespace Babylon.Properties.C04
+open Babylon.Core Babylon.CVec
+
+/-! ### generated obligations: the model was written against these facts of the current source -/
+theorem gen_tsShift : Gen.CVec.tsShift = 6 := by decide
+theorem gen_expireAfter : Gen.CVec.expireAfter = 1 := by decide
+theorem gen_stampBits : Gen.CVec.stampBits = 16 := by decide
+theorem gen_headLayout : Gen.CVec.nodeShift = 48 ∧ Gen.CVec.makeHeadShift = 48 ∧ Gen.CVec.nodeMask = 2 ^ 48 - 1 := by decide
+theorem gen_indexBits : Gen.CVec.indexBits = 32 := by decide
+theorem gen_staticBits : Gen.CVec.staticBits1 = 0 ∧ Gen.CVec.staticBits4 = 2 ∧ Gen.CVec.staticBits16 = 4 := by decide
+theorem gen_skel_retire : Gen.CVec.skel_retire = Skel.retire Gen.CVec.retireRereads := by decide
+theorem gen_skel_gc : Gen.CVec.skel_gc = Skel.gc := by decide
+theorem gen_skel_unsafe_gc : Gen.CVec.skel_unsafe_gc = Skel.unsafe_gc := by decide
+theorem gen_skel_retire_dtor : Gen.CVec.skel_retire_dtor = Skel.retire_dtor := by decide
+theorem gen_skel_get_qualified : Gen.CVec.skel_get_qualified = Skel.get_qualified := by decide
+theorem gen_skel_slow : Gen.CVec.skel_slow = Skel.slow := by decide
+theorem gen_skel_snapshot : Gen.CVec.skel_snapshot = Skel.snapshot := by decide
+theorem gen_skel_dtor : Gen.CVec.skel_dtor = Skel.dtor := by decide
+theorem gen_skel_create_block : Gen.CVec.skel_create_block = Skel.create_block := by decide
+theorem gen_skel_delete_block : Gen.CVec.skel_delete_block = Skel.delete_block := by decide
+
 end Babylon.Properties.C04
